@@ -28,6 +28,7 @@ RULE = ('matrices: SPD, nonsymmetric, singular with identically zero rows and co
         '(n,1); sequences of 3-5 calls on one object vs dense reference and vs a fresh object.  Non-trivial: nonzero matrix.')
 RULE += (' '
          'Also matrices that need pivoting (tiny / zero diagonal entries; direct solvers only), integer right-hand sides and real right-hand sides for complex matrices (direct solvers only).')
+THOROUGH_ROUNDS = 5
 TRUSTED = ['scipy.linalg pinv / lu_factor / cho_factor, scipy.sparse.linalg.splu']
 PARTIAL = ['minimum-norm least squares of pinv and exactness of LU/Cholesky/splu: SciPy contracts checked by the oracle']
 
